@@ -35,6 +35,10 @@ func judgeRelay(c *vk.Ctx, prop string, rc relayCase, o *relayOutcome) bool {
 		c.Inconclusive("dial failed: " + o.Err)
 		return true
 	}
+	if o.ClientLate {
+		c.Inconclusive("the harness client needed more than half the handshake timeout to send the address (loaded machine): case not judged")
+		return true
+	}
 	if o.TargetConns == 0 {
 		c.Violation(prop+"/target-never-contacted", wit(nil))
 		return false
